@@ -145,6 +145,17 @@ class TunnelSettings(CommunitySettings):
 
     dht_provider: DHTCommunityProvider | None = None
 
+    def __init__(self, **kwargs) -> None:
+        """
+        Create new settings. Keyword arguments that name one of our properties go through the property's setter:
+        a SimpleNamespace would only store them in the instance dict, where the property shadows them.
+        """
+        properties = {key: kwargs.pop(key) for key in list(kwargs)
+                      if isinstance(getattr(type(self), key, None), property)}
+        super().__init__(**kwargs)
+        for key, value in properties.items():
+            setattr(self, key, value)
+
     @property
     def max_relay_early(self) -> int:
         """
